@@ -1,10 +1,15 @@
 /-
   C02 — bulk walk returns exactly what the GETNEXT walk returns.  Property theorems.
+  Proved: the GETBULK size bound over the generated expression; on the Python-faithful model, for
+  any agent: bulk walks yield nothing outside the roots and nothing twice, independent of the
+  listing order; with one repetition per request the bulk walk IS the GETNEXT walk.  The general
+  equality (any repetition count, any truncation policy) is tied by correspondence only.
 -/
 import Snmp.Gen.Facts
 import Snmp.Model.Walk
+import Snmp.Lemmas.WalkFaithful
 namespace Snmp.Props.C02
-open Snmp
+open Snmp Snmp.Walk
 
 /-- The GETBULK size bound generated from `Client.bulkget` is RFC 3416's `N + M·R`. -/
 theorem C02_bulk_bound (nonRep nOids maxRep : Nat) :
@@ -15,5 +20,86 @@ theorem C02_bulk_bound (nonRep nOids maxRep : Nat) :
   have h2 : ((nOids - min nonRep nOids : Nat) : Int)
       = max ((nOids : Int) - min (nonRep : Int) (nOids : Int)) 0 := by omega
   simp only [h1, h2]
+
+/-- For ANY agent, repetition count and truncation: every binding a bulk walk yields lies inside
+    a requested root and no instance is yielded twice (adjacent subtrees overrunning into each
+    other included). -/
+theorem C02_bulk_sound_nodup (x : Exchange) (size : Nat) (roots : List Oid) (fuel : Nat) :
+    (yieldOids (walkBulk x size roots fuel).events).Nodup ∧
+    ∀ y ∈ yieldOids (walkBulk x size roots fuel).events, ∃ r ∈ roots, r <+: y := by
+  have h := multiwalk_good (bulkFetcher x size) roots false fuel
+  refine ⟨h.1, ?_⟩
+  intro y hy
+  rcases h.2 y hy with ⟨r, hr, hin⟩
+  exact ⟨r, ((List.mergeSort_perm roots oidLe).mem_iff (a := r)).mp hr, (inside_iff r y).mp hin⟩
+
+/-- the bulk walk does not depend on the order in which the roots were listed -/
+theorem C02_order_independent (x : Exchange) (size : Nat) (roots roots' : List Oid) (h : roots'.Perm roots) (fuel : Nat) :
+    walkBulk x size roots' fuel = walkBulk x size roots fuel :=
+  multiwalk_perm (bulkFetcher x size) roots roots' h false fuel
+
+/-- with one repetition an agent answers a GETBULK exactly as it answers the GETNEXT -/
+theorem getbulk_one_row (a : AgentFn) (oids : List Oid) :
+    Agent.getbulkResp a {} 0 1 oids = Agent.getnextResp a oids := by
+  unfold Agent.getbulkResp Agent.getnextResp
+  cases oids with
+  | nil => simp
+  | cons o rest =>
+    simp only [Nat.zero_min, List.take_zero, List.map_nil, List.drop_zero, List.nil_append, List.isEmpty_cons,
+      Bool.false_eq_true, ↓reduceIte]
+    simp only [Agent.bulkRows]
+    split <;> simp [Agent.bulkRows]
+
+/-- the per-column check on a single (possibly shortened) repetition is the pairwise check of
+    `multigetnext` -/
+theorem checkColumns_single (n : Nat) : ∀ (out : List VarBind) (prev : List Oid) (k : Nat),
+    prev.length = n → k + out.length ≤ n →
+    checkColumns n prev k out = ((prev.drop k).zip out).all (fun p => decide (p.1 < p.2.1)) := by
+  intro out
+  induction out with
+  | nil => intro prev k _ _; simp [checkColumns]
+  | cons vb rest ih =>
+    intro prev k hlen hk
+    have hkn : k < n := by simp at hk; omega
+    have hmod : k % n = k := Nat.mod_eq_of_lt hkn
+    have hget : prev[k]? = some prev[k] := by simp [hlen, hkn]
+    unfold checkColumns
+    simp only [hmod, hget]
+    have hdrop : prev.drop k = prev[k] :: prev.drop (k + 1) := by
+      rw [List.drop_eq_getElem_cons (by omega)]
+    rw [hdrop, List.zip_cons_cons, List.all_cons]
+    by_cases hlt : prev[k] < vb.1
+    · simp only [hlt, decide_true, ↓reduceIte, Bool.true_and]
+      rw [ih (prev.set k vb.1) (k + 1) (by simp [hlen]) (by simp at hk ⊢; omega)]
+      congr 2
+      rw [List.drop_set_of_lt (by omega)]
+    · simp [hlt]
+
+/-- **Bulk size 1 ≡ GETNEXT**, on the Python-faithful model and for ANY agent function: the fetcher
+    of `bulkwalk(bulk_size=1)` accepts, refuses and returns exactly what `multigetnext` does … -/
+theorem bulkFetcher_one (a : AgentFn) (db : List VarBind) (oids : List Oid) :
+    bulkFetcher (exchangeOf a db {}) 1 oids = multigetnext (exchangeOf a db {}) oids := by
+  unfold bulkFetcher multigetnext bulkVarbinds
+  simp only [exchangeOf, List.nil_append, List.length_nil, bind, Except.bind, getbulk_one_row]
+  have hlen : (Agent.getnextResp a oids).length = oids.length := by simp [Agent.getnextResp]
+  have hb : Gen.bulkBound ((0 : Nat) : Int) (oids.length : Int) ((1 : Nat) : Int) = oids.length := by
+    simp only [Gen.bulkBound]; omega
+  have h1 : ¬ ((oids.length : Int) > Gen.bulkBound ((0 : Nat) : Int) (oids.length : Int) ((1 : Nat) : Int)) := by
+    rw [hb]; omega
+  simp only [pure, Except.pure, hlen, bne_self_eq_false, Bool.false_eq_true, ↓reduceIte]
+  rw [if_neg h1]
+  have hout : ((Agent.getnextResp a oids).takeWhile notEom).length ≤ oids.length := by
+    rw [← hlen]; exact (List.takeWhile_sublist _).length_le
+  show (if checkColumns oids.length oids 0 ((Agent.getnextResp a oids).takeWhile notEom) = true then _ else _) = _
+  rw [checkColumns_single oids.length _ oids 0 rfl (by omega), List.drop_zero]
+
+/-- … hence the whole bulk walk with one repetition per request is the GETNEXT walk: same
+    requests (as OID lists), same yields in the same order, same ending. -/
+theorem C02_size1_eq_getnext (a : AgentFn) (db : List VarBind) (roots : List Oid) (fuel : Nat) :
+    walkBulk (exchangeOf a db {}) 1 roots fuel = walkGetnext (exchangeOf a db {}) roots false fuel := by
+  unfold walkBulk walkGetnext
+  have : bulkFetcher (exchangeOf a db {}) 1 = multigetnext (exchangeOf a db {}) := by
+    funext oids; exact bulkFetcher_one a db oids
+  rw [this]
 
 end Snmp.Props.C02
